@@ -59,8 +59,8 @@ def cases(tier, seed, i, n):
             pol = ('passive', 'send', 'close', 'send+close')[idx % 4]
             yield dict(msgs=msgs, pol=pol, auto=(idx % 5 != 0), seg=rnd.choice(('coalesced', 'perframe', 'random', 'bytewise')),
                        cutseed=rnd.randrange(1 << 30), close_at=rnd.randint(2, 10) if 'close' in pol else None,
-                       fault=[rnd.randint(0, 3), rnd.choice(('reset', 'pipe', 'timeout', 'runtime'))] if idx % 3 == 0 else None,
-                       final_close=rnd.random() < 0.3)
+                       fault=[rnd.randint(0, 3), rnd.choice(('reset', 'pipe', 'timeout', 'runtime', 'eintr-partial', 'reset-braces'))] if idx % 3 == 0 else None,
+                       final_close=rnd.random() < 0.3, reconnect=(idx % 5 == 2))
             if idx % 7 == 3:
                 yield dict(msgs=msgs, pol='passive', auto=True, seg=('coalesced', 'perframe', 'random')[idx % 3], cutseed=idx, close_at=None,
                            fault=None, final_close=False, violation=sorted(VIOLATIONS)[idx % len(VIOLATIONS)])
@@ -107,7 +107,13 @@ def execute(case, with_disturbance=True):
     if with_disturbance and case.get('close_at') is not None:
         table.setdefault('@%d' % case['close_at'], []).append(['close', 1000, 'bye'])
     w = H.World(H.hs_server([('raw', stream), ('eof',)]), cuts=cuts)
-    run = H.drive(w, connect_kwargs=dict(ping_rate=0, auto_pong=case['auto']), policy=H.TablePolicy(table),
+    ws0 = None
+    if case.get('reconnect'):
+        # a first, short connection on the same object (ends by EOF inside a fragmented message with a ping pending)
+        w0 = H.World(H.hs_server([('raw', refws.enc_frame(9, b'first-conn') + refws.enc_frame(1, b'\xe2\x82', fin=0)), ('eof',)]))
+        r0 = H.drive(w0, connect_kwargs=dict(ping_rate=0, auto_pong=case['auto']))
+        ws0 = r0.ws
+    run = H.drive(w, ws=ws0, connect_kwargs=dict(ping_rate=0, auto_pong=case['auto']), policy=H.TablePolicy(table),
                   session_class=_faulting_session(case['fault']) if (with_disturbance and case.get('fault')) else None)
     return run, w, expected
 
